@@ -86,7 +86,7 @@ class FragDomain(Domain):
     async_enabled = False
     subscript_may_raise = False
     unpack_may_raise = False
-    global_keys = ("sent",)
+    global_keys = ("#sent",)
     max_inline_depth = 4
 
     def __init__(self, prog, public_fn, exchange_names):
@@ -342,9 +342,9 @@ class FragDomain(Domain):
                 return ok(TOP)
         if isinstance(node.func, ast.Attribute) and node.func.attr == "sendall":
             self._record_send(node, args, state)
-            return [("ok", NONE, state.set("sent", 1))]
+            return [("ok", NONE, state.set("#sent", 1))]
         if name == "self._connect":
-            return [("ok", NONE, state.set("sent", 1))]
+            return [("ok", NONE, state.set("#sent", 1))]
         if isinstance(node.func, ast.Name) and self.fn is not None and node.func.id in self.fn.module.functions:
             # a module-level helper that builds part of a command (e.g. the `[ noreply]\r\n` tail): interpreted in line
             from . import exchange
@@ -366,7 +366,7 @@ class FragDomain(Domain):
 
     def _sanitizer(self, node, state, what):
         self.sanitizer_sites.add((what, node.lineno))
-        if state.get("sent", 0):
+        if state.get("#sent", 0):
             self.order_violations.append((what, node))
 
     def _record_send(self, node, args, state):
